@@ -5,7 +5,9 @@ HostConnectionPool with `core` connections per host) over the virtual server.  T
 the switch (`execute_async('USE ks2')` or `set_keyspace('ks2')`); the server *holds* every USE that
 the reactor-side code sends, so the explorer decides each pool's outcome and the completion order.
 USEs sent from inside an executor task (blocking ones on replacement connections / new pools) and
-everything else are answered by the auto server.
+everything else are answered by the auto server; with params 'suspend' the USEs of a task are held as
+well and may fail (params 'max_task_faults'), in the schedule layer params 'task_faults' makes the
+answer to each of them a choice.
 
 Oracle memory kept by the harness (independent of the driver): which pool USEs it failed and how,
 the pool situations at the moment the switch reached the session, and for every probe request what
@@ -32,7 +34,10 @@ Events (plain data, valid in a rebuilt world):
                         by the server like every other USE, and when the wait for it cannot be satisfied the task is
                         suspended there - exactly where the executor thread would be blocked - while the explorer goes
                         on with the other events (USE results of the application, answers, the next switch).  The held
-                        USE of a task is only answered successfully.
+                        USE of a task is answered with ('respond', i, 'ok') or, at most params 'max_task_faults' times
+                        per history, fails: ('respond', i, 'invalid' | 'server_error' | 'lost') - 'lost' = the new
+                        connection is reset while the USE is pending.  Such a failure is remembered in `task_failed`,
+                        not in `failed`: the USE is not one of a switch.
 Canonical state (KsWorld.canon): the USE future (done, exception type, retries, connection), session.keyspace, per
 pool (host, class, shut down, _keyspace, connection ids, _is_replacing / open_count / _scheduled_for_creation, trash
 size), per host (up, reconnecting), per connection (id, host, in_flight, closed, defunct, driver-side and server-side
@@ -40,7 +45,7 @@ keyspace, outstanding streams, marked for replacement, orphaned streams), held r
 task labels, and the oracle memory (of the current switch, plus its index, the number of 'orphan' events and the
 reported outcomes of the earlier switches; those were judged in the states before the next one was issued and
 otherwise live on only in the driver state above), and with 'suspend' the USEs sent so far by executor tasks plus
-whether a task is suspended and whether what it waits for has happened.
+whether a task is suspended and whether what it waits for has happened, and the failures injected on USEs of tasks.
 Which pools have already called back is a function of (pool situations at the switch, USEs answered), both part of
 the oracle memory.  checks/c20.py compares dedup against no-dedup runs in the thorough tier (also for a two-switch
 configuration).
@@ -60,6 +65,7 @@ from cassandra.cluster import ExecutionProfile, EXEC_PROFILE_DEFAULT
 from cassandra.policies import ConvictionPolicy, ConstantReconnectionPolicy, HostDistance
 from cassandra.query import SimpleStatement
 
+TASK_KINDS = ('invalid', 'server_error', 'lost')    # ways the USE an executor task sends itself can fail
 NEW = 'ks2'                         # target of the (first) switch unless params['switches'] says otherwise
 
 
@@ -101,7 +107,8 @@ class KsWorld(object):
     switch of the application, default ('ks2',)), max_orphan (number of 'orphan' events; > 0 selects the
     connection class with orphaned_threshold = 1), renew (the pool of the last host is being (re)created when the
     history starts: its creation task is queued), suspend (executor tasks are coroutines that are suspended in
-    blocking waits, see the module docstring)"""
+    blocking waits, see the module docstring), max_task_faults / task_kinds (suspend: how many of the USEs that
+    tasks send themselves fail, and how)"""
 
     def __init__(self, params, issue=True):
         self.p = p = dict(params)
@@ -149,6 +156,7 @@ class KsWorld(object):
             self.suspend = bool(p.get('suspend'))
             self.suspended = None       # (greenlet, predicate) of the task blocked in a wait
             self.task_uses = []         # USE statements sent by executor tasks (suspend mode), in order
+            self.task_failed = []       # (connection id, address, kind) of every USE of a task that was failed
             self.creating = None        # address of the host whose pool is being created (params 'renew')
             self._aborting = False
             if self.suspend:
@@ -388,7 +396,9 @@ class KsWorld(object):
     def respond(self, q, kind):
         a = addr(q.conn)
         ks = use_target(q.req['query'])         # the server selects what the statement names
-        if kind == 'set_ks':
+        if self.from_task(q) and kind != 'ok':
+            self.fail_task_use(q, kind)
+        elif kind == 'set_ks':
             if self.situation is None:
                 self.situation = self.pool_situations()
             q.conn.server_state['keyspace'] = ks
@@ -409,13 +419,34 @@ class KsWorld(object):
         else:
             raise HarnessError('unknown response kind %r' % (kind,))
 
+    def fail_task_use(self, q, kind):
+        """A USE that an executor task sent itself (constructor of a pool, catch-up USE of a pool that is being
+        created, USE on a replacement connection) fails: error answer or the connection is lost while it is pending.
+        Such a USE does not belong to a switch of the application (the pool / connection is not in service yet), so
+        it is not a failure the switch has to report: the oracle memory `failed` is untouched, and clause (2) - every
+        connection used after a reported success has the target selected on the server - is what judges the driver's
+        handling of it."""
+        ks = use_target(q.req['query'])
+        self.task_failed.append((q.conn.vid, addr(q.conn), kind))
+        if kind == 'invalid':
+            self.server.respond(q, wire.OP_ERROR, wire.error(wire.ERR_INVALID, "Keyspace '%s' does not exist" % ks), deliver=True)
+        elif kind == 'server_error':
+            self.server.respond(q, wire.OP_ERROR, wire.error(wire.ERR_SERVER, 'java.lang.RuntimeException'), deliver=True)
+        elif kind == 'lost':
+            self.server.pending.remove(q)
+            q.conn.defunct(OSError(104, 'Connection reset by peer'))
+        else:
+            raise HarnessError('unknown failure kind %r for the USE of a task' % (kind,))
+
     def defunct(self, vid):
         c = self.w.conns[vid]
         for q in list(self.server.pending):
             if q.conn is c:
                 # the server side of this connection is gone: these will never be answered
                 self.server.pending.remove(q)
-                if not self.is_initial(q):
+                if self.from_task(q):
+                    self.task_failed.append((c.vid, addr(c), 'lost'))
+                elif not self.is_initial(q):
                     self.failed.setdefault(addr(c), set()).add('connection_lost')
                     self.answered.append((addr(c), 'connection_lost'))
         self.n_defunct += 1
@@ -503,7 +534,7 @@ class KsWorld(object):
                   self.n_defunct, tuple(sorted(self.situation.items())) if self.situation else None,
                   self.cur, self.n_orphan, tuple(o for _, o in self.earlier))
         if self.suspend:
-            memory += (tuple(self.task_uses), self.suspended is not None, self.can_resume())
+            memory += (tuple(self.task_uses), self.suspended is not None, self.can_resume(), tuple(self.task_failed))
         return (fut, self.session.keyspace, tuple(pools), hosts, conns, pend, sched, timers, tasks, memory)
 
 
@@ -546,7 +577,11 @@ class H(explore.Harness):
             if st.is_initial(q):
                 evs.append((('respond', i, 'set_ks'), 0))
             elif st.from_task(q):
-                evs.append((('respond', i, 'ok'), 0))       # (assumption: these are answered successfully)
+                evs.append((('respond', i, 'ok'), 0))
+                if len(st.task_failed) < p.get('max_task_faults', 0):
+                    # the USE a task sent itself fails: error answer / connection lost while it is pending
+                    for kind in p.get('task_kinds', TASK_KINDS):
+                        evs.append((('respond', i, kind), 0))
             else:
                 for kind in p['kinds']:
                     if kind == 'invalid' and len(st.targets) > 1 and \
@@ -634,14 +669,20 @@ class H(explore.Harness):
             raise HarnessError('default continuation does not quiesce after %r' % (hist,))
         judge(st, part, data, 'settled')
         out = st.outcome()
-        key = (situation_label(st.situation), tuple(sorted(set(k for ks in st.failed.values() for k in ks))),
+        key = (situation_label(st.situation), failure_kinds(st),
                'pending' if out is None else out[0] if out[0] == 'ok' else type(out[1]).__name__)
         if st.cur > 0:
             key = (switch_label(st), 'earlier: ' + ','.join(o for _, o in st.earlier)) + key
         part.outcome(key)
         if st.situation is not None and (st.failed or situation_label(st.situation) != 'all-pools-open' or st.n_defunct
-                                         or st.n_orphan or st.cur > 0):
+                                         or st.n_orphan or st.cur > 0 or st.task_failed):
             part.mark_nontrivial(repr(st._canon_before_probe))
+
+
+def failure_kinds(st):
+    """failure kinds injected on pool USEs of the current switch, plus (own-USE-<kind>) on USEs of executor tasks"""
+    return tuple(sorted(set(k for ks in st.failed.values() for k in ks)) +
+                 sorted(set('own-USE-' + k for _, _, k in st.task_failed)))
 
 
 def switch_label(st):
@@ -705,12 +746,25 @@ def _nested_codes(code, out):
             _nested_codes(c, out)
 
 
-def focus_codes():
-    """Every source line of these functions (and of the closures defined in them) is a scheduling point."""
+def focus_codes(which=None):
+    """Every source line of these functions (and of the closures defined in them) is a scheduling point.
+    which = 'own-use': the functions in which an executor task sends a USE of its own and waits for the answer, and the
+    ones that hand the answer over to the waiting task (pool creation incl. the nested callback of the catch-up USE,
+    connection replacement, Connection.set_keyspace_blocking and the ResponseWaiter it blocks on)."""
     import cassandra.cluster as C
     import cassandra.connection as N
     import cassandra.pool as P
     out = []
+    if which == 'own-use':
+        for fn in (C.Session.add_or_renew_pool, P.HostConnection.__init__, P.HostConnection._replace,
+                   P.HostConnection._set_keyspace_for_all_conns, P.HostConnectionPool.__init__,
+                   P.HostConnectionPool._set_keyspace_for_all_conns, P.HostConnectionPool._add_conn_if_under_max,
+                   P.HostConnectionPool._retrying_replace, N.Connection.set_keyspace_blocking,
+                   N.ResponseWaiter.got_response, N.ResponseWaiter.deliver):
+            _nested_codes(fn.__code__, out)
+        return out
+    if which is not None:
+        raise HarnessError('unknown focus %r' % (which,))
     for fn in (P.HostConnection.__init__, P.HostConnection._replace, P.HostConnection._set_keyspace_for_all_conns,
                P.HostConnectionPool._set_keyspace_for_all_conns, P.HostConnectionPool._add_conn_if_under_max,
                P.HostConnectionPool._retrying_replace,
@@ -728,7 +782,11 @@ def sched_harness(params, prefix, part):
     the next switch as soon as the previous one has reported its outcome (the result of each of its USE statements
     reaches the client at a moment the scheduler chooses, so a later switch may complete while the executor thread
     is anywhere in the task, e.g. waiting for the answer to the catch-up USE of the pool it is creating).
-    params: KsWorld params + scenario ('replace' | 'replace-orphaned' | 'renew')."""
+    params: KsWorld params + scenario ('replace' | 'replace-orphaned' | 'renew'), task_faults (failure kinds: the answer
+    to every USE the executor thread sends itself is a choice between success and - once per execution - one of them;
+    the reactor delivers it like every other answer, so a preemption can separate any two steps of its hand-over to
+    the waiting executor thread), focus (None: the functions of the switch, replacement and pool creation;
+    'own-use': see focus_codes)."""
     from vt.connlib import quiet_driver_logs
     quiet_driver_logs()
     st = KsWorld(params, issue=False)
@@ -765,9 +823,43 @@ def sched_harness(params, prefix, part):
         # every answer but the result of the application's USE is a success that the reactor delivers in the order
         # of the requests; the moment the USE result reaches the client is a choice: the schedule is the nondeterminism
         st.server.hold = lambda conn, req: req['op'] == 'QUERY' and req.get('query') == user_use(st.target)
-        s = sched.Scheduler(prefix, focus=focus_codes(), horizon=params.get('horizon', 30000), clock=st.w.clock)
+        s = sched.Scheduler(prefix, focus=focus_codes(params.get('focus')), horizon=params.get('horizon', 30000),
+                            clock=st.w.clock)
         busy = {'reactor': True, 'executor': True}
-        net = {'arrived': False, 'delivered': 0, 'to_issue': len(st.targets) - 1}
+        net = {'arrived': False, 'delivered': 0, 'to_issue': len(st.targets) - 1, 'lost': set(), 'running': True}
+        task_faults = tuple(params.get('task_faults') or ())
+
+        def on_request(server, conn, stream, req):
+            # params 'task_faults': how the node answers a USE that the executor thread sends itself (constructor of
+            # the pool, catch-up USE, USE on a replacement connection) is a choice: success, or - once per execution -
+            # one of the failures listed; 'lost' = instead of an answer the reactor finds the connection reset
+            q = req.get('query', '') if req['op'] == 'QUERY' else ''
+            if task_faults and net['running'] and q.strip().upper().startswith('USE ') and q != user_use(st.target) \
+                    and s.current is not None and s.current.name == 'executor' and not st.task_failed:
+                st.task_uses.append((conn.vid, use_target(q)))
+                k = s.choose(1 + len(task_faults), 'answer-to-USE-of-task')
+                if k:
+                    kind = task_faults[k - 1]
+                    st.task_failed.append((conn.vid, addr(conn), kind))
+                    if kind == 'invalid':
+                        return wire.OP_ERROR, wire.error(wire.ERR_INVALID, "Keyspace '%s' does not exist" % use_target(q))
+                    if kind == 'server_error':
+                        return wire.OP_ERROR, wire.error(wire.ERR_SERVER, 'java.lang.RuntimeException')
+                    if kind == 'lost':
+                        net['lost'].add(conn.vid)       # (what is queued for this connection is never delivered)
+                        return wire.OP_ERROR, wire.error(wire.ERR_SERVER, 'never delivered')
+                    raise HarnessError('unknown failure kind %r for the USE of a task' % (kind,))
+            return st._on_request(server, conn, stream, req)
+
+        st.server.on_request = on_request
+
+        def deliver_one():
+            conn, data = st.server.outbox.popleft()
+            if conn.vid in net['lost']:
+                if not (conn.is_defunct or conn.is_closed):
+                    conn.defunct(OSError(104, 'Connection reset by peer'))
+            else:
+                conn.feed(data)
 
         def held():
             return [q for q in st.pending() if st.is_initial(q)]
@@ -794,7 +886,7 @@ def sched_harness(params, prefix, part):
                     net['delivered'] += 1
                     st.respond(h[0], 'set_ks')
                 elif st.server.outbox:
-                    st.w.deliver_outbox(1)
+                    deliver_one()
                 else:
                     busy['reactor'] = False
                     return
@@ -821,6 +913,8 @@ def sched_harness(params, prefix, part):
         if net['to_issue']:
             s.spawn(application, 'application')
         s.run()
+        net['running'] = False
+        st.server.on_request = st._on_request
         data = {'params': params, 'prefix': s.choices()}
         if s.failure:
             part.violation('C20/%s/%s' % (s.failure[0], scenario), s.failure[1], data)
@@ -834,10 +928,11 @@ def sched_harness(params, prefix, part):
             raise HarnessError('default continuation does not quiesce after schedule %r' % (s.choices(),))
         judge(st, part, data, 'settled')
         out = st.outcome()
-        part.outcome((scenario if len(st.targets) == 1 else '%s, %d switches' % (scenario, len(st.targets)),
-                      'pending' if out is None else out[0] if out[0] == 'ok' else type(out[1]).__name__,
+        part.outcome((scenario if len(st.targets) == 1 else '%s, %d switches' % (scenario, len(st.targets)),) +
+                     ((failure_kinds(st),) if task_faults else ()) +
+                     ('pending' if out is None else out[0] if out[0] == 'ok' else type(out[1]).__name__,
                       tuple(sorted((a, p._keyspace) for a, p in ((addr(h), p) for h, p in st.session._pools.items())))))
-        if any(p.chosen for p in s.trace if not p.kind.startswith('data')):
+        if any(p.chosen for p in s.trace if not p.kind.startswith('data')) or st.task_failed:
             part.mark_nontrivial(repr((scenario, params.get('ks0'), params.get('proto'), st.targets, s.choices())))
         part.sample({'scenario': scenario, 'choices': s.choices(), 'outcome': None if out is None else out[0]}, limit=1)
         return s
